@@ -306,4 +306,13 @@ theorem tie_nextWritable_model :
     (ArvVerif.C01.nextWritable ([⟨false, false, 1, fun _ => none⟩, ⟨false, false, 1, fun _ => none⟩] :
       List (ArvVerif.C01.Vol Nat Nat)) 0) = (some 1, 1) := by decide
 
+/-- handlers.go keeps no per-block state between requests: its package-level variables are the node
+status, its lock and two regexps (premise of Model/C01_History.lean: the answer to a request is a function
+of the current mount contents, not of earlier reads) -/
+theorem tie_handlersPackageVars : handlersPackageVars =
+  ["var st NodeStatus",
+   "var stLock sync.Mutex",
+   "var validLocatorRe = regexp.MustCompile(`^[0-9a-f]{32}$`)",
+   "var authRe = regexp.MustCompile(`^(OAuth2|Bearer)\\s+(.*)`)"] := rfl
+
 end ArvVerif.Tie.C01
